@@ -28,18 +28,20 @@ type Config struct {
 	MaxSteps     int
 	MaxSplit     int
 	PreemptBound int
-	Workers      int
-	TimeoutMs    int
-	MaxPaths     int
-	KnownIDs     map[string]bool
-	Deadline     time.Time
-	Verbose      bool
-	Pin          map[string]uint64 // concrete re-execution: input variable values
-	PinDecisions []int
-	Params       map[string]int
-	CrossEvery   int // re-decide one in CrossEvery assertion verdicts with cvc5 and z3 5.1 (0: off)
-	CrossMax     int // at most this many re-decided verdicts per harness
-	Seed         int
+	// FreeSwitchBound > 0 bounds the non-default choices made when the running thread blocks or ends (0: all explored)
+	FreeSwitchBound int
+	Workers         int
+	TimeoutMs       int
+	MaxPaths        int
+	KnownIDs        map[string]bool
+	Deadline        time.Time
+	Verbose         bool
+	Pin             map[string]uint64 // concrete re-execution: input variable values
+	PinDecisions    []int
+	Params          map[string]int
+	CrossEvery      int // re-decide one in CrossEvery assertion verdicts with cvc5 and z3 5.1 (0: off)
+	CrossMax        int // at most this many re-decided verdicts per harness
+	Seed            int
 }
 
 func (c *Config) isRepoPkg(path string) bool {
@@ -368,6 +370,7 @@ func (in *Interp) runPath(prefix, prevLog []decision) (res *PathResult) {
 	in.pending = nil
 	in.killed = false
 	in.preempts = 0
+	in.freeSwitches = 0
 
 	// synchronise the solver with the new prefix (level 1 is the per-path base frame)
 	if in.sol.LastErr != "" {
